@@ -314,6 +314,16 @@ let () =
     let (n, pl) = check_sheet rs in
     string_of_z n ^ " " ^ String.concat " " (List.map (fun o -> match o with Some i -> string_of_z i | None -> "-1") pl))
 
+(* ---- C14 checkRow over arbitrary cell references of one row (0 = no r attribute) ---- *)
+let rec int_of_nat n = match n with O -> 0 | S m -> 1 + int_of_nat m
+let () =
+  reg "c14.checkrow" (fun a ->
+    let cells = List.map (fun t -> let z = z_of_string t in if Z.eqb z (z_of_string "0") then None else Some z) a in
+    match check_row cells with
+    | Ok t -> "ok " ^ String.concat " " (List.map (fun o -> match o with Some k -> string_of_int (int_of_nat k) | None -> "-1") t)
+    | Err e -> "err " ^ string_of_z e
+    | Panic p -> "panic " ^ string_of_z p)
+
 (* ---- C03 merged ranges: MergeCell / UnmergeCell / GetMergeCells ---- *)
 let () =
   reg "c03.merges" (fun a ->
